@@ -5,7 +5,9 @@ package main
 // single MAC commands, decode port-0 command streams, set + validate a data MIC, FOpts / FRMPayload
 // encryption and decryption), is first run sequentially to record the results; then 8 goroutines repeat the
 // tasks for about half a second while one more goroutine loops RegisterProprietaryMACCommand(true, 131..191,
-// 1..5).  The streams only contain built-in CIDs, so no result depends on those registrations.  Every
+// 1..5).  The streams only contain built-in CIDs, so no result depends on those registrations.  A second group
+// of tasks decodes the SAME underlying bytes in all goroutines (every built-in command of both directions, a
+// shared DataPayload stream, a shared frame buffer): decoders only read their input.  Every
 // concurrent result must equal the sequential one (`concurrent:<task>`); when no goroutine makes progress for
 // 3 s the run is reported as `hang:concurrent-decode-register` (a reader that takes the registry lock twice
 // deadlocks with a waiting writer).  Progress-based, not wall-clock-based: a slow machine is not a hang.
@@ -143,6 +145,49 @@ func (h *H) concurrentSmoke() {
 				encB := framefmt.Phy(b, framefmt.DecodedFOptsLen(w2))
 				y2 := b.DecryptFOpts(key)
 				return fmt.Sprintf("%v %v %v %v %s %s %s %s", x1, x2, y1, y2, enc, framefmt.Phy(a, 0), encB, framefmt.Phy(b, framefmt.DecodedFOptsLen(w2)))
+			})
+		}
+	}
+	// ---- the SAME underlying bytes decoded by all goroutines at once (a shared receive buffer; two frames whose
+	// DataPayload share one Bytes slice): decoders only read their input, so this is as good as private copies ----
+	for _, up := range []bool{false, true} {
+		up := up
+		var stream []byte
+		for _, b := range macfmt.Builtin {
+			if b.Up != up {
+				continue
+			}
+			wire := append([]byte{byte(b.CID)}, r.Bytes(macfmt.Kinds[macfmt.KindIndex(b.Kind)].Size)...)
+			stream = append(stream, wire...)
+			add(fmt.Sprintf("shared-bytes MACCommand.UnmarshalBinary(%v,%x)", up, wire), map[string]interface{}{"uplink": up, "in": hexs(wire), "shared": "all goroutines decode the same slice"}, func() string {
+				var m lorawan.MACCommand
+				if err := m.UnmarshalBinary(up, wire); err != nil {
+					return "err"
+				}
+				return macfmt.Item(&m)
+			})
+		}
+		mt := lorawan.UnconfirmedDataDown
+		if up {
+			mt = lorawan.UnconfirmedDataUp
+		}
+		shared := &lorawan.DataPayload{Bytes: stream}
+		add(fmt.Sprintf("shared-bytes DecodeFRMPayloadToMACCommands(%v,%x)", up, stream), map[string]interface{}{"uplink": up, "stream": hexs(stream), "shared": "frames of all goroutines hold the same DataPayload"}, func() string {
+			port := uint8(0)
+			q := lorawan.PHYPayload{MHDR: lorawan.MHDR{MType: mt}, MACPayload: &lorawan.MACPayload{FPort: &port, FRMPayload: []lorawan.Payload{shared}}}
+			if err := q.DecodeFRMPayloadToMACCommands(); err != nil {
+				return "err"
+			}
+			return framefmt.Phy(q, 0)
+		})
+		f := framefmt.DataFrame(r, framefmt.Opt{MType: mt, Port: 1 + r.Intn(200), FOptsBytes: 3 + r.Intn(12), FRMLen: 1 + r.Intn(20)})
+		if wire, err := f.MarshalBinary(); err == nil {
+			add(fmt.Sprintf("shared-bytes PHYPayload.UnmarshalBinary(%x)", wire), map[string]interface{}{"in": hexs(wire), "shared": "all goroutines decode the same slice"}, func() string {
+				var q lorawan.PHYPayload
+				if err := q.UnmarshalBinary(wire); err != nil {
+					return "err"
+				}
+				return framefmt.Phy(q, framefmt.DecodedFOptsLen(wire))
 			})
 		}
 	}
